@@ -388,6 +388,75 @@ Proof.
   rewrite (Hfix h1), (Hfix h2); [reflexivity| |]; intro H; apply Hn; apply in_or_app; [right|left]; exact H.
 Qed.
 
+(* retime_id: the entry with that id takes over ttl and expiry; id, alias, name, cancelled flag, time and position stay *)
+Definition set_ttl_expire (q : squery) (ttl expire : Z) : squery :=
+  {| sq_id := sq_id q; sq_alias := sq_alias q; sq_name := sq_name q; sq_ttl := ttl;
+     sq_cancelled := sq_cancelled q; sq_expire := expire; sq_when := sq_when q |}.
+
+(* the entry x of the old heap as it stands in the re-timed heap *)
+Definition retimed (id ttl expire : Z) (x : squery) : squery :=
+  if sq_id x =? id then set_ttl_expire x ttl expire else x.
+
+Lemma retime_id_map h id ttl ex : retime_id h id ttl ex = map (retimed id ttl ex) h.
+Proof. reflexivity. Qed.
+
+Lemma retimed_fields id ttl ex x :
+  sq_id (retimed id ttl ex x) = sq_id x /\ sq_alias (retimed id ttl ex x) = sq_alias x /\
+  sq_name (retimed id ttl ex x) = sq_name x /\ sq_cancelled (retimed id ttl ex x) = sq_cancelled x /\
+  sq_when (retimed id ttl ex x) = sq_when x.
+Proof. unfold retimed. destruct (sq_id x =? id); repeat split. Qed.
+
+Lemma retimed_other id ttl ex x : sq_id x <> id -> retimed id ttl ex x = x.
+Proof. intro H. unfold retimed. apply Z.eqb_neq in H. rewrite H. reflexivity. Qed.
+
+Lemma retimed_same ttl ex x : retimed (sq_id x) ttl ex x = set_ttl_expire x ttl ex.
+Proof. unfold retimed. rewrite Z.eqb_refl. reflexivity. Qed.
+
+Lemma retime_id_length h id ttl ex : length (retime_id h id ttl ex) = length h.
+Proof. rewrite retime_id_map. apply map_length. Qed.
+
+Lemma retime_id_ids h id ttl ex : map sq_id (retime_id h id ttl ex) = map sq_id h.
+Proof. rewrite retime_id_map, map_map. apply map_ext. intro q. apply retimed_fields. Qed.
+
+Lemma retime_id_whens h id ttl ex : map sq_when (retime_id h id ttl ex) = map sq_when h.
+Proof. rewrite retime_id_map, map_map. apply map_ext. intro q. apply retimed_fields. Qed.
+
+Lemma retime_id_aliases h id ttl ex : map sq_alias (retime_id h id ttl ex) = map sq_alias h.
+Proof. rewrite retime_id_map, map_map. apply map_ext. intro q. apply retimed_fields. Qed.
+
+Lemma retime_id_cancelled h id ttl ex : map sq_cancelled (retime_id h id ttl ex) = map sq_cancelled h.
+Proof. rewrite retime_id_map, map_map. apply map_ext. intro q. apply retimed_fields. Qed.
+
+Lemma retime_id_in h id ttl ex x :
+  In x (retime_id h id ttl ex) <-> exists y, In y h /\ x = retimed id ttl ex y.
+Proof.
+  rewrite retime_id_map, in_map_iff. split; intros [y [H1 H2]]; exists y; auto.
+Qed.
+
+Lemma find_id_retime : forall h id ttl ex id',
+  find_id (retime_id h id ttl ex) id' = option_map (retimed id ttl ex) (find_id h id').
+Proof.
+  unfold find_id. induction h as [|q r IH]; intros id ttl ex id'; [reflexivity|].
+  rewrite retime_id_map. cbn [map find].
+  destruct (retimed_fields id ttl ex q) as (Hid & _). rewrite Hid.
+  destruct (sq_id q =? id'); [reflexivity|]. rewrite <- retime_id_map. apply IH.
+Qed.
+
+Lemma retime_id_split h cur ttl ex :
+  NoDup (map sq_id h) -> In cur h ->
+  exists h1 h2, h = h1 ++ cur :: h2 /\ retime_id h (sq_id cur) ttl ex = h1 ++ set_ttl_expire cur ttl ex :: h2.
+Proof.
+  intros ND Hin. destruct (in_split _ _ Hin) as [h1 [h2 E]]. exists h1, h2. split; [exact E|].
+  subst h. rewrite retime_id_map, map_app. cbn [map]. rewrite retimed_same.
+  rewrite map_app in ND. cbn [map] in ND.
+  assert (Hfix : forall l, ~ In (sq_id cur) (map sq_id l) -> map (retimed (sq_id cur) ttl ex) l = l).
+  { induction l as [|y l IHl]; intro Hn; [reflexivity|]. cbn [map].
+    rewrite retimed_other by (intro E; apply Hn; left; exact E).
+    rewrite IHl; [reflexivity|]. intro H. apply Hn. right. exact H. }
+  pose proof (NoDup_remove_2 _ _ _ ND) as Hn.
+  rewrite (Hfix h1), (Hfix h2); [reflexivity| |]; intro H; apply Hn; apply in_or_app; [right|left]; exact H.
+Qed.
+
 Lemma find_id_some h id q : find_id h id = Some q -> In q h /\ sq_id q = id.
 Proof.
   unfold find_id. intro H. apply find_some in H as [H1 H2]. apply Z.eqb_eq in H2. tauto.
@@ -468,6 +537,24 @@ Proof.
     subst x. apply Z.eqb_neq in E.
     pose proof (Hlive y Hy Hxc) as Hg.
     rewrite dget_del_other; [exact Hg|]. intro Ea. rewrite Ea in Hg. congruence.
+Qed.
+
+(* re-timing an entry touches neither ids, aliases nor cancelled flags *)
+Lemma WFh_retime h al f id ttl ex : WFh h al f -> WFh (retime_id h id ttl ex) al f.
+Proof.
+  intros (Hids & Hfr & Hkeys & Hreg & Hlive).
+  repeat split.
+  - rewrite retime_id_ids. exact Hids.
+  - intros x Hx. apply retime_id_in in Hx as [y [Hy ->]].
+    destruct (retimed_fields id ttl ex y) as (Fid & _). rewrite Fid. apply Hfr. exact Hy.
+  - exact Hkeys.
+  - intros a id' H. destruct (Hreg a id' H) as [y (Hyin & Hyid & Hyal & Hyc)].
+    destruct (retimed_fields id ttl ex y) as (Fid & Fal & _ & Fc & _).
+    exists (retimed id ttl ex y). split; [apply retime_id_in; exists y; auto|].
+    rewrite Fid, Fal, Fc. auto.
+  - intros x Hx Hxc. apply retime_id_in in Hx as [y [Hy ->]].
+    destruct (retimed_fields id ttl ex y) as (Fid & Fal & _ & Fc & _).
+    rewrite Fid, Fal. rewrite Fc in Hxc. apply Hlive; assumption.
 Qed.
 
 (* popping the heap minimum m: a cancelled entry is dropped, a live one is unregistered *)
